@@ -6,6 +6,7 @@
  "replace": [],
  "annotate": ["datastruct/elasticarray.c"],
  "defines": ["VERIF_HALLOC"],
+ "thorough_defines": ["EA_MAXOBJ=4096"],
  "cbmc": ["--malloc-may-fail", "--malloc-fail-null"],
  "native": true,
  "timeout": 300
